@@ -3,21 +3,23 @@
 package vam
 
 var verifEntries = map[string]func(int){
-	"Verif_C19_Select":   Verif_C19_Select,
-	"Verif_C09_Pages":    Verif_C09_Pages,
-	"Verif_C02_Hist":     Verif_C02_Hist,
-	"Verif_C04_Hist":     Verif_C04_Hist,
-	"Verif_C11_Hist":     Verif_C11_Hist,
-	"Verif_C13_Hist":     Verif_C13_Hist,
-	"Verif_C20_Teardown": Verif_C20_Teardown,
-	"Verif_C10_Faults":   Verif_C10_Faults,
-	"Verif_C08_Maps":     Verif_C08_Maps,
-	"Verif_C14_Maps":     Verif_C14_Maps,
-	"Verif_C08_Kernels":  Verif_C08_Kernels,
-	"Verif_C07_VDefrag":  Verif_C07_VDefrag,
-	"Verif_C02_VDefrag":  Verif_C02_VDefrag,
-	"Verif_C14_VDefrag":  Verif_C14_VDefrag,
-	"Verif_C08_VDefrag":  Verif_C08_VDefrag,
-	"Verif_C04_VDefrag":  Verif_C04_VDefrag,
-	"Verif_C15_VDefrag":  Verif_C15_VDefrag,
+	"Verif_C19_Select":     Verif_C19_Select,
+	"Verif_C09_Pages":      Verif_C09_Pages,
+	"Verif_C02_Hist":       Verif_C02_Hist,
+	"Verif_C04_Hist":       Verif_C04_Hist,
+	"Verif_C11_Hist":       Verif_C11_Hist,
+	"Verif_C13_Hist":       Verif_C13_Hist,
+	"Verif_C20_Teardown":   Verif_C20_Teardown,
+	"Verif_C10_Faults":     Verif_C10_Faults,
+	"Verif_C08_Maps":       Verif_C08_Maps,
+	"Verif_C14_Maps":       Verif_C14_Maps,
+	"Verif_C08_Kernels":    Verif_C08_Kernels,
+	"Verif_C07_VDefrag":    Verif_C07_VDefrag,
+	"Verif_C02_VDefrag":    Verif_C02_VDefrag,
+	"Verif_C14_VDefrag":    Verif_C14_VDefrag,
+	"Verif_C08_VDefrag":    Verif_C08_VDefrag,
+	"Verif_C04_VDefrag":    Verif_C04_VDefrag,
+	"Verif_C15_VDefrag":    Verif_C15_VDefrag,
+	"Verif_C11_OverBudget": Verif_C11_OverBudget,
+	"Verif_C19_Fallback":   Verif_C19_Fallback,
 }
